@@ -104,7 +104,7 @@ def run(chk):
         comps = rng.choice([0, 0, 1, 2, 3])
         gcs = rng.choice([0, 0, 1, 2])
         ng = rng.choice([1, 2]) if gcs else rng.choice([0, 0, 2])
-        convert = dim == 3 and sph and rng.random() < 0.6
+        convert = dim == 3 and rng.random() < (0.6 if sph else 0.3)     # the option is about the data file, not about the world
         slot = cs.add_world(wj, model=False)
         sep = rng.choice([" ", ", ", "  "])
         lines = ["# generated data file"]
